@@ -415,3 +415,38 @@ Proof.
     + destruct (concepts_leaves _ _ _ _ _ _ _ Ec v Hv) as (l & Hl). exists e, l. split; [now left | exact Hl].
     + destruct (IH _ _ _ Er v Hv) as (e0 & l & He0 & Hl). exists e0, l. split; [now right | exact Hl].
 Qed.
+
+(* ------------------------------------------------------------------------ *)
+(* several transformations with their own roots in one graph *)
+
+Theorem concepts_roots_nodes : forall res g g' evs, concepts_roots res g = Some (g', evs) ->
+  g_next g <= g_next g' /\
+  (forall r v, In (r, v) evs -> exists k, ev_cur v = TEn k /\ g_next g <= k < g_next g') /\
+  NoDup (map (fun p => ev_cur (snd p)) evs) /\
+  (* every event carries the root of the call it was made in *)
+  (forall r v, In (r, v) evs -> exists e l, In (r, e) res /\ In l (cleaves e) /\ ev_of_leaf v l).
+Proof.
+  induction res as [|[r0 e] rest IH]; intros g g' evs E; cbn [concepts_roots] in E.
+  - injection E as <- <-. split; [lia|]. split; [intros r v []|]. split; [constructor | intros r v []].
+  - destruct (concepts e None false g) as [[[n g1] ev1]|] eqn:Ec; [|discriminate].
+    destruct (concepts_roots rest g1) as [[g2 ev2]|] eqn:Er; [|discriminate].
+    injection E as <- <-.
+    destruct (concepts_nodes _ _ _ _ _ _ _ Ec) as (A1 & A2 & A3); [intros c F; discriminate|].
+    destruct (IH _ _ _ Er) as (B1 & B2 & B3 & B4).
+    split; [lia|]. split; [|split].
+    + intros r v Hv. apply in_app_or in Hv as [Hv|Hv].
+      * apply in_map_iff in Hv as (v0 & [= <- <-] & Hv0).
+        destruct (A2 v0 Hv0) as (k & Ek & [F|Hk]); [discriminate|]. exists k. split; [exact Ek | lia].
+      * destruct (B2 r v Hv) as (k & Ek & Hk). exists k. split; [exact Ek | lia].
+    + rewrite map_app, map_map. cbn [snd]. apply NoDup_app_disj; auto.
+      intros t Ht1 Ht2. apply in_map_iff in Ht1 as (v1 & <- & Hv1).
+      apply in_map_iff in Ht2 as ([r2 v2] & E2 & Hv2). cbn [snd] in E2.
+      destruct (A2 v1 Hv1) as (k1 & Ek1 & [F|Hk1]); [discriminate|].
+      destruct (B2 r2 v2 Hv2) as (k2 & Ek2 & Hk2).
+      rewrite Ek1, Ek2 in E2. injection E2 as ->. lia.
+    + intros r v Hv. apply in_app_or in Hv as [Hv|Hv].
+      * apply in_map_iff in Hv as (v0 & [= <- <-] & Hv0).
+        destruct (concepts_leaves _ _ _ _ _ _ _ Ec v0 Hv0) as (l & Hl & Hm).
+        exists e, l. split; [now left | auto].
+      * destruct (B4 r v Hv) as (e0 & l & He0 & Hl). exists e0, l. split; [now right | exact Hl].
+Qed.
